@@ -81,6 +81,8 @@ pub struct World {
     pub gates: Arc<Mutex<BTreeMap<usize, Arc<tokio::sync::Notify>>>>,
     /// a worker to kill from inside the next discard callback
     pub armed: Arc<Mutex<Option<(usize, ActorCell)>>>,
+    /// workers that linger in post_stop until released
+    pub slow_stop: Arc<Mutex<std::collections::BTreeSet<usize>>>,
 }
 
 impl World {
@@ -146,6 +148,22 @@ impl Worker for TW {
             How::Err => Err("worker failed".into()),
             How::Panic => panic!("worker panicked"),
         }
+    }
+    async fn post_stop(&self, wid: WorkerId, _f: &ActorRef<FactoryMessage<Key, JobMsg>>, _: &mut ()) -> Result<(), ActorProcessingErr> {
+        // a worker that was told to stop "slowly" lingers in post_stop (it refuses messages, and its supervisor
+        // has not been told anything yet) until the script lets it go
+        let slow = self.world.slow_stop.lock().unwrap().contains(&wid);
+        if slow {
+            self.world.log(Ev::Script(format!("worker {wid} lingers in post_stop")));
+            loop {
+                if !self.world.slow_stop.lock().unwrap().contains(&wid) {
+                    break;
+                }
+                let g = self.world.gate(wid + 100);
+                g.notified().await;
+            }
+        }
+        Ok(())
     }
 }
 
@@ -309,6 +327,8 @@ pub struct Cfg {
     pub fine_deaths: bool,
     /// a fixed history (tokens as in FACTORY_HISTORY) instead of the enumeration
     pub script: Option<&'static str>,
+    /// the history may tell an idle worker to stop "slowly" (it lingers in post_stop)
+    pub slow_stops: bool,
 }
 
 impl Cfg {
@@ -323,7 +343,7 @@ impl Cfg {
             (true, false) => "/lean",
             _ => "",
         };
-        format!("{:?}/{:?}/w{}/d{}{}{mode}{q}{}{}", self.routing, self.discard, self.workers, self.depth, if self.ttl { "/ttl" } else { "" }, if self.set_limit { "/setlimit" } else { "" }, if self.flow_only { "/flow3keys".to_string() } else if self.fine_deaths { "/fine-deaths".to_string() } else if let Some(s) = self.script { format!("/script-{}", s.replace(',', "-")) } else { String::new() }).replace(['(', ')'], "")
+        format!("{:?}/{:?}/w{}/d{}{}{mode}{q}{}{}", self.routing, self.discard, self.workers, self.depth, if self.ttl { "/ttl" } else { "" }, if self.set_limit { "/setlimit" } else { "" }, if self.flow_only { "/flow3keys".to_string() } else if self.fine_deaths { "/fine-deaths".to_string() } else if let Some(s) = self.script { format!("/script-{}", s.replace(',', "-")) } else if self.slow_stops { "/slow-stops".to_string() } else { String::new() }).replace(['(', ')'], "")
     }
     pub fn factory_queueing(&self) -> bool {
         matches!(self.routing, Routing::Sticky | Routing::Queuer | Routing::RlQueuer)
@@ -416,6 +436,9 @@ pub enum Event {
     SetLimit(usize),
     /// the next discard callback kills worker `w` and waits until it is gone (inside the factory's handler)
     ArmKillOnDiscard(usize),
+    /// worker `w` is told to stop (gracefully, from outside) and lingers in post_stop until the finale: it is
+    /// neither available nor reported dead
+    StopSlowly(usize),
     /// marker: the next event was issued right behind the previous one (no settling in between)
     NoSettle,
 }
@@ -560,6 +583,13 @@ pub async fn run(cfg: Cfg) -> Run {
         if !drained && !cfg.flow_only && !cfg.fine_deaths {
             en.push(Event::Drain);
         }
+        if cfg.slow_stops && world.slow_stop.lock().unwrap().is_empty() {
+            for w in 0..2usize {
+                if current_cell(w, &world, &f).is_some() && !prog.iter().any(|p| p.0 == w) {
+                    en.push(Event::StopSlowly(w));
+                }
+            }
+        }
         if cfg.set_limit {
             for l in [0usize, 2] {
                 if Some(l) != cur_limit {
@@ -590,6 +620,8 @@ pub async fn run(cfg: Cfg) -> Run {
                 "A" => Event::Advance,
                 "ARM0" => Event::ArmKillOnDiscard(0),
                 "ARM1" => Event::ArmKillOnDiscard(1),
+                "SS0" => Event::StopSlowly(0),
+                "SS1" => Event::StopSlowly(1),
                 "L0" => Event::SetLimit(0),
                 "L2" => Event::SetLimit(2),
                 _ => Event::Advance,
@@ -674,6 +706,13 @@ pub async fn run(cfg: Cfg) -> Run {
                     *world.armed.lock().unwrap() = Some((w, c));
                 }
             }
+            Event::StopSlowly(w) => {
+                if let Some(c) = current_cell(w, &world, &f) {
+                    deaths += 1;
+                    world.slow_stop.lock().unwrap().insert(w);
+                    c.stop(Some("told to".into()));
+                }
+            }
             Event::NoSettle => unreachable!(),
         }
         let _ = &limits;
@@ -704,7 +743,15 @@ pub async fn run(cfg: Cfg) -> Run {
             probe_lc.push(vsched::stamp());
         }
     }
-    // finale: let every job in progress complete until nothing moves any more
+    // finale: lingering workers may go, then every job in progress completes until nothing moves any more
+    let lingering: Vec<usize> = world.slow_stop.lock().unwrap().iter().copied().collect();
+    if !lingering.is_empty() {
+        world.slow_stop.lock().unwrap().clear();
+        for w in lingering {
+            world.gate(w + 100).notify_one();
+        }
+        vsched::quiesce();
+    }
     let mut rounds = 0;
     for _ in 0..24 {
         let prog = world.in_progress();
@@ -822,10 +869,10 @@ pub fn plan(property: &'static str, tier: &str) -> Plan {
                 // the big ones are split by their first event (each of them then shards by its next choice):
                 // the subtrees below the first event are very uneven in size
                 for first in ["D0", "D1", "R1", "R3", "DR", "K0", "K1"] {
-                    cfgs.push((Cfg { routing: r, discard: *d, workers: 2, depth, ttl: false, lean: false, burst: false, queue: QueueKind::Default, set_limit: false, flow_only: false, fine_deaths: false, script: Some(first) }, bound));
+                    cfgs.push((Cfg { routing: r, discard: *d, workers: 2, depth, ttl: false, lean: false, burst: false, queue: QueueKind::Default, set_limit: false, flow_only: false, fine_deaths: false, script: Some(first), slow_stops: false }, bound));
                 }
             } else {
-                cfgs.push((Cfg { routing: r, discard: *d, workers: 2, depth, ttl: false, lean: false, burst: false, queue: QueueKind::Default, set_limit: false, flow_only: false, fine_deaths: false, script: None }, bound));
+                cfgs.push((Cfg { routing: r, discard: *d, workers: 2, depth, ttl: false, lean: false, burst: false, queue: QueueKind::Default, set_limit: false, flow_only: false, fine_deaths: false, script: None, slow_stops: false }, bound));
             }
         }
     }
@@ -840,15 +887,15 @@ pub fn plan(property: &'static str, tier: &str) -> Plan {
                 continue;
             }
         }
-        cfgs.push((Cfg { routing: r, discard: Discard::None, workers: 2, depth: if thorough { 7 } else { 5 }, ttl: false, lean: true, burst: false, queue: QueueKind::Default, set_limit: false, flow_only: false, fine_deaths: false, script: None }, 0));
+        cfgs.push((Cfg { routing: r, discard: Discard::None, workers: 2, depth: if thorough { 7 } else { 5 }, ttl: false, lean: true, burst: false, queue: QueueKind::Default, set_limit: false, flow_only: false, fine_deaths: false, script: None, slow_stops: false }, 0));
     }
     // bursts: requests that sit in the factory's mailbox together (a resize right behind a resize, a
     // dispatch right behind a drain request, ...), so the factory handles the second before the workers
     // reacted to the first
     for r in [Routing::Queuer, Routing::KeyPersistent, Routing::Sticky, Routing::RoundRobin] {
-        cfgs.push((Cfg { routing: r, discard: Discard::None, workers: 2, depth: if thorough { 5 } else { 4 }, ttl: false, lean: true, burst: true, queue: QueueKind::Default, set_limit: false, flow_only: false, fine_deaths: false, script: None }, 0));
+        cfgs.push((Cfg { routing: r, discard: Discard::None, workers: 2, depth: if thorough { 5 } else { 4 }, ttl: false, lean: true, burst: true, queue: QueueKind::Default, set_limit: false, flow_only: false, fine_deaths: false, script: None, slow_stops: false }, 0));
         if property == "C15" {
-            cfgs.push((Cfg { routing: r, discard: Discard::Newest(1), workers: 2, depth: if thorough { 4 } else { 3 }, ttl: false, lean: true, burst: true, queue: QueueKind::Default, set_limit: false, flow_only: false, fine_deaths: false, script: None }, 0));
+            cfgs.push((Cfg { routing: r, discard: Discard::Newest(1), workers: 2, depth: if thorough { 4 } else { 3 }, ttl: false, lean: true, burst: true, queue: QueueKind::Default, set_limit: false, flow_only: false, fine_deaths: false, script: None, slow_stops: false }, 0));
         }
     }
     // the priority queue (factory-queued routing only: worker queues are plain FIFOs): urgent key b
@@ -858,7 +905,7 @@ pub fn plan(property: &'static str, tier: &str) -> Plan {
             if property != "C15" && d != Discard::None && !thorough {
                 continue;
             }
-            cfgs.push((Cfg { routing: r, discard: d, workers: 1, depth: if thorough { 6 } else { 4 }, ttl: false, lean: true, burst: false, queue: q, set_limit: false, flow_only: false, fine_deaths: false, script: None }, 0));
+            cfgs.push((Cfg { routing: r, discard: d, workers: 1, depth: if thorough { 6 } else { 4 }, ttl: false, lean: true, burst: false, queue: q, set_limit: false, flow_only: false, fine_deaths: false, script: None, slow_stops: false }, 0));
         }
     }
     // plain job flow with three keys, longer: several same-key jobs waiting while every worker is busy
@@ -866,17 +913,17 @@ pub fn plan(property: &'static str, tier: &str) -> Plan {
         if !thorough && !(matches!(r, Routing::Sticky | Routing::KeyPersistent) || property == "C13") {
             continue;
         }
-        cfgs.push((Cfg { routing: r, discard: Discard::None, workers: 2, depth: if thorough { 8 } else { 6 }, ttl: false, lean: true, burst: false, queue: QueueKind::Default, set_limit: false, flow_only: true, fine_deaths: false, script: None }, 0));
+        cfgs.push((Cfg { routing: r, discard: Discard::None, workers: 2, depth: if thorough { 8 } else { 6 }, ttl: false, lean: true, burst: false, queue: QueueKind::Default, set_limit: false, flow_only: true, fine_deaths: false, script: None, slow_stops: false }, 0));
     }
     // a leaky-bucket rate limiter in front of the router; the history may let 150 ms pass (refill to the cap)
     for r in [Routing::RlQueuer, Routing::RlKeyPersistent] {
-        cfgs.push((Cfg { routing: r, discard: Discard::None, workers: 2, depth: if thorough { 7 } else { 5 }, ttl: false, lean: true, burst: false, queue: QueueKind::Default, set_limit: false, flow_only: false, fine_deaths: false, script: None }, 0));
+        cfgs.push((Cfg { routing: r, discard: Discard::None, workers: 2, depth: if thorough { 7 } else { 5 }, ttl: false, lean: true, burst: false, queue: QueueKind::Default, set_limit: false, flow_only: false, fine_deaths: false, script: None, slow_stops: false }, 0));
     }
     // a worker dies right after it reported completion, at the granularity of the factory's own channel
     // operations (worker-queued routing: the next job of its queue is dispatched while it is going down)
     if property != "C14" || thorough {
         for r in [Routing::KeyPersistent, Routing::RoundRobin] {
-            cfgs.push((Cfg { routing: r, discard: Discard::None, workers: 1, depth: 4, ttl: false, lean: true, burst: false, queue: QueueKind::Default, set_limit: false, flow_only: false, fine_deaths: true, script: None }, if thorough { 3 } else { 2 }));
+            cfgs.push((Cfg { routing: r, discard: Discard::None, workers: 1, depth: 4, ttl: false, lean: true, burst: false, queue: QueueKind::Default, set_limit: false, flow_only: false, fine_deaths: true, script: None, slow_stops: false }, if thorough { 3 } else { 2 }));
         }
     }
     // scripted histories: a worker is killed from inside the factory's own handler (in the callback that
@@ -884,22 +931,33 @@ pub fn plan(property: &'static str, tier: &str) -> Plan {
     for r in [Routing::KeyPersistent, Routing::RoundRobin] {
         for script in ["D1,D0,D1,A,ARM0,C0", "D1,D0,D1,A,DR,ARM0,C0", "D1,D0,D1,D1,A,ARM0,C0,C0"] {
             cfgs.push((
-                Cfg { routing: r, discard: Discard::None, workers: 1, depth: script.split(',').count(), ttl: true, lean: true, burst: false, queue: QueueKind::Default, set_limit: false, flow_only: false, fine_deaths: false, script: Some(script) },
+                Cfg { routing: r, discard: Discard::None, workers: 1, depth: script.split(',').count(), ttl: true, lean: true, burst: false, queue: QueueKind::Default, set_limit: false, flow_only: false, fine_deaths: false, script: Some(script), slow_stops: false },
                 if thorough { 2 } else { 1 },
             ));
+        }
+    }
+    // a worker that lingers in post_stop (told to stop from outside): unavailable but not yet reported dead
+    if property != "C14" || thorough {
+        for r in [Routing::KeyPersistent, Routing::RoundRobin, Routing::Queuer] {
+            for d in [Discard::Newest(1), Discard::Oldest(1), Discard::None] {
+                if d == Discard::None && property == "C15" {
+                    continue;
+                }
+                cfgs.push((Cfg { routing: r, discard: d, workers: 1, depth: if thorough { 5 } else { 4 }, ttl: false, lean: true, burst: false, queue: QueueKind::Default, set_limit: false, flow_only: false, fine_deaths: false, script: None, slow_stops: true }, 0));
+            }
         }
     }
     // the discard limit changes under way (UpdateSettings)
     if property == "C15" || thorough {
         for r in [Routing::Queuer, Routing::KeyPersistent] {
             for d in [Discard::Newest(1), Discard::Oldest(1)] {
-                cfgs.push((Cfg { routing: r, discard: d, workers: 1, depth: if thorough { 6 } else { 5 }, ttl: false, lean: true, burst: false, queue: QueueKind::Default, set_limit: true, flow_only: false, fine_deaths: false, script: None }, 0));
+                cfgs.push((Cfg { routing: r, discard: d, workers: 1, depth: if thorough { 6 } else { 5 }, ttl: false, lean: true, burst: false, queue: QueueKind::Default, set_limit: true, flow_only: false, fine_deaths: false, script: None, slow_stops: false }, 0));
             }
         }
     }
     // TTL expiry with time advancing
     for r in [Routing::Queuer, Routing::KeyPersistent] {
-        cfgs.push((Cfg { routing: r, discard: Discard::None, workers: 1, depth: if thorough { 5 } else { 4 }, ttl: true, lean: false, burst: false, queue: QueueKind::Default, set_limit: false, flow_only: false, fine_deaths: false, script: None }, 0));
+        cfgs.push((Cfg { routing: r, discard: Discard::None, workers: 1, depth: if thorough { 5 } else { 4 }, ttl: true, lean: false, burst: false, queue: QueueKind::Default, set_limit: false, flow_only: false, fine_deaths: false, script: None, slow_stops: false }, 0));
     }
     let mut units = Vec::new();
     for (cfg, bound) in cfgs {
